@@ -21,8 +21,8 @@
 (*                whose constructor threads {} through those elements once *)
 (*                more; LenaSplit.__init__: _set_context({}) returns at    *)
 (*                once (split.py:125-127)                                  *)
-(*   UseRoot      root._get_context(), then one value (0, {"rt": 0}) is    *)
-(*                run through the finished pipeline                        *)
+(*   UseRoot      root._get_context(), then two values (0, {"rt": 0}),     *)
+(*                (0, {"rt": 1}) are run through the finished pipeline     *)
 (*                                                                         *)
 (* The passes are transcribed from the code:                               *)
 (*   SeqLoop   LenaSequence._set_context (lena_sequence.py:95-133):        *)
@@ -236,7 +236,8 @@ Close ==
 
 Root == Len(els)
 Seen == [j \in 1..Len(els) |-> st[j].ctx]
-\* the finished pipeline is used: root._get_context(), then one value is run through it
+\* the finished pipeline is used: root._get_context(), then two values are run through it;
+\* nothing any object holds changes (RunKeepsStatic)
 UseRoot == /\ phase = "built"
            /\ gctx' = Get1(els, pol, Root, st)
            /\ rt' = RunRoot(els, Seen)
@@ -266,7 +267,7 @@ HoldsExpected(i, in) ==
 ExportsExpected(n, in) ==
   IsNode(els[n]) /\ ~in.err =>
     LET out == OutOf(els, pol, n, in) g == Get1(els, pol, n, st) IN
-    IF out.err THEN g.exc = out.key ELSE g.exc = "" /\ g.ctx = out.ctx
+    IF out.err THEN g.exc = out.key /\ g.exc \in Unresolved(els, pol, n, in) ELSE g.exc = "" /\ g.ctx = out.ctx
 
 \* SeenIsExpected, at every step: inside every completed component every element holds the
 \* fold relative to that component (which so far received nothing from outside)
@@ -281,6 +282,9 @@ Causal ==
   [][\A i \in DOMAIN st :
         st'[i] # st[i] => /\ Len(els') = Len(els) + 1 /\ IsNode(els'[Len(els')])
                           /\ i \in Below(els', Len(els'))]_vars
+
+\* running values through the finished pipeline changes nothing an object holds
+RunKeepsStatic == [][phase = "built" => st' = st]_vars
 
 \* the fold of element i does not look at anything after i (document order = construction
 \* order; enclosing nodes are constructed later but are not "after")
@@ -328,6 +332,7 @@ SetF(path, toks) == [k |-> "set", p |-> path, v |-> [t |-> "fmt", toks |-> toks]
 Consumer(kind, toks) == [k |-> kind, p |-> <<>>, v |-> [t |-> "fmt", toks |-> toks]]
 Plain(kind) == [k |-> kind, p |-> <<>>, v |-> NoTpl]
 KA == <<"ka">>  KB == <<"kb">>  KC == <<"kc">>  KDE == <<"kd", "ke">>  KDF == <<"kd", "kf">>
+KOX == <<"output", "kx">>
 MFab == Consumer("mf", <<Fld(KA), Lit("_"), Fld(KB)>>)
 Wa == Consumer("write", <<Fld(KA)>>)
 Cc == Consumer("cache", <<Fld(KC), Lit(".pkl")>>)
@@ -337,7 +342,8 @@ LeavesTiny == {SetC(KA, "int", "1"), SetC(KB, "int", "2"), Plain("store"), MFab,
 LeavesQuick == LeavesCore \cup {SetC(KA, "int", "2"), Wa, Cc, Plain("data"), Plain("acc")}
 LeavesFull == LeavesQuick \cup {SetC(KA, "str", "1"), SetF(KC, <<Lit("x"), Fld(KC)>>),
                                 SetC(KDE, "int", "1"), SetC(KDE, "int", "2"), SetF(KB, <<Fld(KDE)>>),
-                                SetC(KDF, "int", "1"), SetC(KDF, "int", "2"),
+                                SetC(KDF, "int", "1"), SetC(KDF, "int", "2"), SetC(KOX, "int", "1"),
+                                Consumer("mf", <<Fld(KOX)>>),
                                 Consumer("mf", <<Fld(KC)>>), Consumer("write", <<Fld(KB), Lit("_"), Fld(KDE)>>)}
 AllRoots == {"seq", "src", "split"}
 SeqRoots == {"seq", "src"}
@@ -345,18 +351,25 @@ SrcRoot == {"src"}
 \* nested keys: recursive intersection
 LeavesNested == {SetC(KDE, "int", "1"), SetC(KDF, "int", "1"), SetC(KDF, "int", "2")}
 SeqRoot == {"seq"}
+\* focused alphabets (small, deeper): shared Split copies; two different unresolved keys in
+\* nested sequences; a static key under "output", where MakeFilename writes at run time
+LeavesFocus1 == {SetC(KA, "int", "1"), SetC(KB, "int", "2")}
+LeavesFocus2 == {SetC(KA, "int", "1"), SetF(KC, <<Fld(KA)>>), SetF(KB, <<Fld(KDE)>>), Plain("store")}
+LeavesFocus2b == {SetC(KA, "int", "1"), SetF(KC, <<Fld(KA)>>), SetF(KB, <<Fld(KDE)>>)}
+LeavesFocus3 == {SetC(KOX, "int", "1"), Plain("ucfs"), Consumer("mf", <<Fld(KOX)>>), Plain("store")}
 LeavesMin == {SetC(KA, "int", "1"), SetC(KB, "int", "2"), Plain("ucfs"), MFab}
 
 (***************************************************************************)
 (* Export of finished behaviours for the replay on the real code.          *)
 (***************************************************************************)
 ObsOf(i, in) ==
-  CASE els[i].k \in {"store", "ucfs"} -> [free |-> in.err, ctx |-> in.ctx, ok |-> TRUE, s |-> <<>>, key |-> ""]
+  CASE els[i].k \in {"store", "ucfs"} -> [free |-> in.err, ctx |-> in.ctx, ok |-> TRUE, s |-> <<>>, key |-> "", un |-> {}]
     [] els[i].k \in {"mf", "write", "cache"} ->
-         LET x == NameOf(els, i, in) IN [free |-> x.free, ctx |-> in.ctx, ok |-> x.ok, s |-> x.s, key |-> ""]
+         LET x == NameOf(els, i, in) IN [free |-> x.free, ctx |-> in.ctx, ok |-> x.ok, s |-> x.s, key |-> "", un |-> {}]
     [] IsNode(els[i]) ->
-         LET o == OutOf(els, pol, i, in) IN [free |-> in.err, ctx |-> o.ctx, ok |-> ~o.err, s |-> <<>>, key |-> o.key]
-    [] OTHER -> [free |-> TRUE, ctx |-> Empty, ok |-> TRUE, s |-> <<>>, key |-> ""]
+         LET o == OutOf(els, pol, i, in) IN [free |-> in.err, ctx |-> o.ctx, ok |-> ~o.err, s |-> <<>>, key |-> o.key,
+                                                 un |-> IF o.err THEN Unresolved(els, pol, i, in) ELSE {}]
+    [] OTHER -> [free |-> TRUE, ctx |-> Empty, ok |-> TRUE, s |-> <<>>, key |-> "", un |-> {}]
 \* for diagnosis only: the contexts that later positions of the same sequence receive
 LateOf(i, w) ==
   LET ps == {n \in 1..Len(els) : i \in Range(els[n].ch)} IN
